@@ -32,7 +32,7 @@ def check_backend(run, f, cfg, adt):
             run.anchor("C17.R4", "%s:%s" % (short, n), "function %s not found" % n, cfg)
             return
     try:
-        chain = S.replace_chain(f, esc)
+        chain = S.escape_chain(f, esc)
     except Anchor as e:
         run.anchor("C17.R1", "%s:escape" % short, str(e), cfg)
         return
